@@ -104,7 +104,11 @@ func Modify(node Node, f func(Node) (Node, bool)) (Node, bool) { //nolint:funlen
 			if !ok {
 				return nil, false
 			}
-			newNode.Parameters[i] = id.(*Identifier)
+			ident, isIdent := id.(*Identifier)
+			if !isIdent { // the rewriter replaced a parameter name (a register for an inner function's own n): give up.
+				return nil, false
+			}
+			newNode.Parameters[i] = ident
 		}
 		nb, ok := Modify(node.Body, f)
 		if !ok {
@@ -196,7 +200,11 @@ func Modify(node Node, f func(Node) (Node, bool)) (Node, bool) { //nolint:funlen
 			if !ok {
 				return nil, false
 			}
-			newNode.Parameters[i] = id.(*Identifier)
+			ident, isIdent := id.(*Identifier)
+			if !isIdent { // the rewriter replaced a parameter name (a register for an inner function's own n): give up.
+				return nil, false
+			}
+			newNode.Parameters[i] = ident
 		}
 		nb, ok := Modify(node.Body, f)
 		if !ok {
